@@ -117,6 +117,12 @@ def run_child(root: str, ops: list, seed: int, timeout_s: float = 30.0, opts: di
     return res
 
 
+def _marker(content):
+    if isinstance(content, dict) and "symlink" in content:
+        return b"\x00symlink:" + content["symlink"].encode()
+    return util.dec_content(content)
+
+
 class Runner:
     """One world directory + reference memo, owned by one worker."""
 
@@ -142,15 +148,23 @@ class Runner:
     def _put(self, rel, content):
         path = os.path.join(self.root, rel)
         if content is None:
-            if os.path.isdir(path):
+            if os.path.islink(path):
+                os.remove(path)
+            elif os.path.isdir(path):
                 shutil.rmtree(path)
             elif os.path.lexists(path):
                 os.remove(path)
             self.state.pop(rel, None)
             return
         os.makedirs(os.path.dirname(path), exist_ok=True)
-        if os.path.isdir(path):
+        if os.path.islink(path):
+            os.remove(path)
+        elif os.path.isdir(path):
             shutil.rmtree(path)
+        if isinstance(content, dict) and "symlink" in content:
+            os.symlink(content["symlink"], path)
+            self.state[rel] = _marker(content)
+            return
         data = util.dec_content(content)
         with open(path, "wb") as fh:
             fh.write(data)
@@ -158,13 +172,13 @@ class Runner:
 
     def reset(self, files: dict):
         """Bring the directory back to `files` cheaply (only what differs) and drop run droppings (logs/)."""
-        want = {rel: util.dec_content(c) for rel, c in files.items()}
+        want = {rel: _marker(c) for rel, c in files.items()}
         for rel in list(self.state):
             if rel not in want:
                 self._put(rel, None)
-        for rel, data in want.items():
-            if self.state.get(rel) != data:
-                self._put(rel, data)
+        for rel in sorted(want):
+            if self.state.get(rel) != want[rel]:
+                self._put(rel, files[rel])
         logs = os.path.join(self.root, "logs")
         if os.path.lexists(logs):
             if os.path.isdir(logs):
@@ -222,7 +236,7 @@ class Runner:
         Memoised by (operation, contents of every file it names, fault plan): a reference
         outcome is a pure function of those (asserted by the determinism self-test)."""
         kop = {k: v for k, v in op.items() if not k.startswith("_")}
-        key = util.digest([kop, [(n, util.digest(self.state.get(n))) for n in self.named_files(op)]])
+        key = util.digest([kop, [(n, self._content_digest(n)) for n in self.named_files(op)]])
         hit = self.memo.get(key)
         if hit is not None:
             self.ref_hits += 1
@@ -236,6 +250,17 @@ class Runner:
             if os.path.isdir(logs):
                 shutil.rmtree(logs, ignore_errors=True)
         return out
+
+    def _content_digest(self, name):
+        if name in self.state:
+            return util.digest(self.state[name])
+        # a name that is not a key of the world (a path through a symlink or with ..): ask the disk
+        p = os.path.join(self.root, name)
+        try:
+            with open(p, "rb") as fh:
+                return "disk:" + util.digest(fh.read())
+        except OSError as e:
+            return "disk-error:" + str(e.errno)
 
     def close(self):
         shutil.rmtree(self.dir, ignore_errors=True)
